@@ -6,6 +6,7 @@ mod c11;
 mod c14;
 mod c15;
 mod c16;
+mod c18;
 mod dftzoo;
 mod c20;
 mod c14seg;
@@ -28,6 +29,7 @@ fn main() {
         "c14" => c14::run(&args),
         "c15" => c15::run(&args),
         "c16" => c16::run(&args),
+        "c18" => c18::run(&args),
         "c20" => c20::run(&args),
         "thermo" => thermo::run(&args),
         "igcp" => igcp::run(&args),
